@@ -336,6 +336,7 @@ struct Case {
     bool partial_on = false;
     int64_t K = 1000000, now = 0;
     bool wall = false;   // packets go through process_packet(PDU&), which stamps them with the current time
+    const APkt* cur = nullptr;   // the packet being processed (for the callbacks)
     unsigned packets = 0, max_packets = 0, big_bulks = 0;
     uint64_t h = 0;
     std::string desc;
@@ -377,6 +378,18 @@ struct Case {
         recs.push_back(r);
         AEv e; e.type = EV_NEW; e.sid = sid;
         evs.push_back(e);
+        if (cur) {
+            // identity of the new connection as seen through the read-only accessors: created at the announcing packet's
+            // time, link-layer addresses of that packet (source = client side) or none without an Ethernet header
+            const Stream& cs = st;
+            if (!wall) VCHECK(ctx, cs.create_time() == Stream::timestamp_type(cur->t), "C07:new-stream:create-time",
+                              "create_time() = " << cs.create_time().count() << "us, the announcing packet was stamped " << cur->t << "us | " << desc);
+            Stream::hwaddress_type want_c, want_s;
+            if (cur->eth) { want_c = Stream::hwaddress_type("00:0a:0b:0c:0d:0e"); want_s = Stream::hwaddress_type("00:01:02:03:04:05"); }
+            VCHECK(ctx, cs.client_hw_addr() == want_c && cs.server_hw_addr() == want_s, "C07:new-stream:hw-addresses",
+                   "client_hw_addr() = " << cs.client_hw_addr() << " server_hw_addr() = " << cs.server_hw_addr() << " expected " << want_c << " / " << want_s << " | " << desc);
+            VCHECK(ctx, cs.client_payload().empty() && cs.server_payload().empty(), "C07:new-stream:payload-not-empty", "a stream is announced before any of its data is delivered | " << desc);
+        }
         st.client_data_callback([this, sid](Stream& s) {
             AEv d; d.type = EV_DATA; d.sid = sid; d.dir = 0; d.bytes = s.client_payload();
             evs.push_back(std::move(d));
@@ -472,6 +485,7 @@ struct Case {
         if (!m.harness_error.empty()) { VFAIL(ctx, "C07:harness:model-precondition", m.harness_error << " | " << desc); }
         evs.clear();
         {
+            cur = &p;
             if (wall) {
                 std::unique_ptr<PDU> pdu(build(p));
                 f->process_packet(*pdu);
@@ -479,6 +493,7 @@ struct Case {
                 Packet pkt(build(p), Timestamp(std::chrono::microseconds(p.t)), Packet::own_pdu());
                 f->process_packet(pkt);
             }
+            cur = nullptr;
         }
         if (ctx.logging()) {
             std::ostringstream o;
